@@ -3,8 +3,9 @@
 (* C++ API, and Norm: what a GDSII save/load of such a library must contain        *)
 (* (C01), which is also what the strict decoder must find in the written file      *)
 (* (C03, reverse direction).                                                       *)
-(* Coordinates are in QUANTA = quarter database units, never on a rounding tie     *)
-(* (k % 4 # 2), so "rounded to the precision grid" is unambiguous.                 *)
+(* Coordinates are in QUANTA = quarter database units (eighths where the            *)
+(* description carries qd = 8), never on a rounding tie (k % qd # qd / 2), so        *)
+(* "rounded to the precision grid" is unambiguous.                                 *)
 EXTENDS GdsProj, Repetition, GdsConsts
 Poly(l, t, pts, rep, props) == [l |-> l, t |-> t, pts |-> pts, rep |-> rep, props |-> props]
 El(l, t, w, off, pt, ext) == [l |-> l, t |-> t, w |-> w, off |-> off, pt |-> pt, ext |-> ext]
@@ -19,14 +20,18 @@ Ref(nm, kind, f, m, a, xy, rep, props) ==
      props |-> props]
 
 \* ---- Norm ------------------------------------------------------------------------------
-R4(q) == RoundHalfAway(q, 4)
-RP(p, off) == <<R4(p[1] + off[1]), R4(p[2] + off[2])>>
+\* qd = quanta per database unit (4 unless the description says otherwise; 8 for the cases whose
+\* vertices AND repetition offsets are off the grid, so that rounding the sum differs from summing
+\* the roundings while no sum is a tie)
+QD(al) == IF "qd" \in DOMAIN al THEN al.qd ELSE 4
+RQ(q, qd) == RoundHalfAway(q, qd)
+RP(p, off, qd) == <<RQ(p[1] + off[1], qd), RQ(p[2] + off[2], qd)>>
 RepOffs(rep) == IF rep.type = "none" THEN << <<0, 0>> >> ELSE Offsets(rep)
 GdsPropSet(props) == {<<props[i].a, props[i].s>> : i \in {j \in DOMAIN props : props[j].k = "gds"}}
 EndCode(pt) == IF pt = 5 THEN 1 ELSE pt
 
-NormPolys(e) == LET offs == RepOffs(e.rep) IN
-    [k \in DOMAIN offs |-> [l |-> e.l, t |-> e.t, xy |-> [i \in DOMAIN e.pts |-> RP(e.pts[i], offs[k])],
+NormPolys(e, qd) == LET offs == RepOffs(e.rep) IN
+    [k \in DOMAIN offs |-> [l |-> e.l, t |-> e.t, xy |-> [i \in DOMAIN e.pts |-> RP(e.pts[i], offs[k], qd)],
                             props |-> GdsPropSet(e.props)]]
 \* centre line of an element: the spine displaced by the element's offset to the left of the
 \* direction of travel; exact for the generator's spines (offsets only on axis-parallel,
@@ -36,24 +41,25 @@ Shift(spine, off) ==
     ELSE LET d == VSub(spine[2], spine[1])
              n == IF d[2] = 0 THEN <<0, Sign(d[1]) * off>> ELSE <<-Sign(d[2]) * off, 0>>
          IN  [i \in DOMAIN spine |-> VAdd(spine[i], n)]
-NormPathEl(e, el, off) ==
-    [l |-> el.l, t |-> el.t, pt |-> EndCode(el.pt), w |-> R4(el.w),
-     sw |-> IF R4(el.w) = 0 THEN TRUE ELSE e.sw,
-     ext |-> IF el.pt = 4 THEN <<R4(el.ext[1]), R4(el.ext[2])>> ELSE <<0, 0>>,
-     spine |-> Simplify([i \in DOMAIN e.spine |-> RP(Shift(e.spine, el.off)[i], off)]),
+NormPathEl(e, el, off, qd) ==
+    [l |-> el.l, t |-> el.t, pt |-> EndCode(el.pt), w |-> RQ(el.w, qd),
+     sw |-> IF RQ(el.w, qd) = 0 THEN TRUE ELSE e.sw,
+     ext |-> IF el.pt = 4 THEN <<RQ(el.ext[1], qd), RQ(el.ext[2], qd)>> ELSE <<0, 0>>,
+     spine |-> Simplify([i \in DOMAIN e.spine |-> RP(Shift(e.spine, el.off)[i], off, qd)]),
      props |-> GdsPropSet(e.props)]
-NormPaths(e) == LET offs == RepOffs(e.rep) IN
-    Cat([n \in DOMAIN e.els |-> [k \in DOMAIN offs |-> NormPathEl(e, e.els[n], offs[k])]])
-NormLabels(e) == LET offs == RepOffs(e.rep) IN
+NormPaths(e, qd) == LET offs == RepOffs(e.rep) IN
+    Cat([n \in DOMAIN e.els |-> [k \in DOMAIN offs |-> NormPathEl(e, e.els[n], offs[k], qd)]])
+NormLabels(e, qd) == LET offs == RepOffs(e.rep) IN
     [k \in DOMAIN offs |-> [l |-> e.l, t |-> e.t, anchor |-> e.anchor, refl |-> e.refl,
-                            mag |-> e.mag, ang |-> e.ang, xy |-> RP(e.xy, offs[k]),
+                            mag |-> e.mag, ang |-> e.ang, xy |-> RP(e.xy, offs[k], qd),
                             text |-> e.text, props |-> GdsPropSet(e.props)]]
-NormRefs(e) == LET offs == RepOffs(e.rep) IN
+NormRefs(e, qd) == LET offs == RepOffs(e.rep) IN
     [k \in DOMAIN offs |-> [sname |-> e.sname, kind |-> e.kind, refl |-> e.refl, mag |-> e.mag,
-                            ang |-> e.ang, xy |-> RP(e.xy, offs[k]), props |-> GdsPropSet(e.props)]]
-NormCell(c) == [name |-> c.name, polys |-> FlatMap(NormPolys, c.polys),
-                paths |-> FlatMap(NormPaths, c.paths), refs |-> FlatMap(NormRefs, c.refs),
-                labels |-> FlatMap(NormLabels, c.labels)]
-Norm(al) == [name |-> al.name, cells |-> Map(NormCell, al.cells)]
+                            ang |-> e.ang, xy |-> RP(e.xy, offs[k], qd), props |-> GdsPropSet(e.props)]]
+NormCell(c, qd) == [name |-> c.name, polys |-> FlatMap(LAMBDA e : NormPolys(e, qd), c.polys),
+                    paths |-> FlatMap(LAMBDA e : NormPaths(e, qd), c.paths),
+                    refs |-> FlatMap(LAMBDA e : NormRefs(e, qd), c.refs),
+                    labels |-> FlatMap(LAMBDA e : NormLabels(e, qd), c.labels)]
+Norm(al) == [name |-> al.name, cells |-> Map(LAMBDA c : NormCell(c, QD(al)), al.cells)]
 
 =============================================================================
